@@ -41,7 +41,10 @@ type c16Scenario struct {
 	Short   []string   // a short-lived writer: open, send these, close
 	Reader  []uint64   // reader thread: GetMessages(offset) for each entry
 	Ignore  bool       // the reader ignores one id and one offset
-	Bound   int
+	// ReaderOnWriter0: the reader thread uses writer 0's handle (a node polls the board through
+	// the same storage object its API handlers post with)
+	ReaderOnWriter0 bool
+	Bound           int
 }
 
 func (sc c16Scenario) build(r *kit.Run) sched.Body {
@@ -59,9 +62,13 @@ func (sc c16Scenario) build(r *kit.Run) sched.Body {
 			}
 			return st
 		}
+		var handle0 storage.Storage
 		for wi, tags := range sc.Writers {
 			wi, tags := wi, tags
 			h := open()
+			if wi == 0 {
+				handle0 = h
+			}
 			names = append(names, fmt.Sprintf("writer%d", wi))
 			threads = append(threads, func() {
 				if sc.Batch {
@@ -100,7 +107,12 @@ func (sc c16Scenario) build(r *kit.Run) sched.Body {
 			})
 		}
 		if len(sc.Reader) > 0 {
-			h := open()
+			var h storage.Storage
+			if sc.ReaderOnWriter0 && handle0 != nil {
+				h = handle0
+			} else {
+				h = open()
+			}
 			names = append(names, "reader")
 			threads = append(threads, func() {
 				for _, from := range sc.Reader {
@@ -216,6 +228,7 @@ func c16(tier string, args []string) int {
 		{Name: "2-writers-batched-send", Writers: [][]string{{"a1", "a2"}, {"b1", "b2"}}, Batch: true, Bound: b},
 		{Name: "3-writers-1-send", Writers: [][]string{{"a1"}, {"b1"}, {"c1"}}, Bound: b},
 		{Name: "2-writers-and-reader", Writers: [][]string{{"a1"}, {"b1"}}, Reader: []uint64{0, 1, 0}, Bound: b},
+		{Name: "reader-on-a-writers-handle", Writers: [][]string{{"a1", "a2"}, {"b1"}}, Reader: []uint64{0, 0}, ReaderOnWriter0: true, Bound: b},
 		{Name: "short-lived-writer-next-to-long-lived", Writers: [][]string{{"a1", "a2"}, {"b1"}}, Short: []string{"s1"}, Bound: b},
 	}
 	execs, distinct := 0, 0
@@ -286,7 +299,14 @@ func c16Sizes(r *kit.Run, tier string) int {
 		}
 		return lo
 	}
-	sizes := []int{0, 1, 100, payloadFor(64*1024 - 2), payloadFor(64 * 1024), payloadFor(64*1024 + 3), payloadFor(200 * 1024), payloadFor(1024*1024 - 16)}
+	sizes := []int{0, 1, 100, payloadFor(64*1024 - 2), payloadFor(64 * 1024), payloadFor(64*1024 + 3), payloadFor(200 * 1024), payloadFor(1024*1024 - 16),
+		// a line just beyond what the reader accepts: whether Send takes it is left open, but the
+		// messages around it are within the statement and must keep their places
+		payloadFor(1024*1024 + 64)}
+	if tier == "thorough" {
+		// the exact boundary of the reader's limit (the offset digits make the line 0-2 bytes longer)
+		sizes = append(sizes, payloadFor(1024*1024-3), payloadFor(1024*1024-1), payloadFor(1024*1024))
+	}
 	maxLen := 3
 	n := 0
 	var rec func(cur []int)
@@ -310,6 +330,7 @@ func c16Sizes(r *kit.Run, tier string) int {
 				}
 				if err := h.Send(storage.Message{Data: data, Event: "e", SenderAddr: "w"}); err != nil {
 					o.Errors = append(o.Errors, err.Error())
+					continue // refused: not part of the log
 				}
 				sent = append(sent, string(data))
 			}
@@ -326,7 +347,7 @@ func c16Sizes(r *kit.Run, tier string) int {
 			if o.FinalErr != "" {
 				r.Violation("C16/log-unreadable/sizes", fmt.Sprintf("after messages of payload sizes %v the log cannot be read: %s", szs, o.FinalErr), trace())
 			} else {
-				if len(ms) != len(cur) {
+				if len(ms) != len(sent) {
 					r.Violation("C16/log-length/sizes", fmt.Sprintf("payload sizes %v: %d entries", szs, len(ms)), trace())
 				}
 				for p, m := range ms {
